@@ -12,7 +12,11 @@ STD_IFACES = {"org.freedesktop.DBus.Properties", "org.freedesktop.DBus.Introspec
 TRANSITIONS = ["P", "U", "p", "u", "PU", "pu"]
 
 
-def host_for(line, name="verifhost"):
+def host_for(line, name="verifhost", sub=False):
+    if sub:
+        # a host that has a sub-profile of its own between the directive and its trailing local include
+        return ("profile %s {\n  include <abstractions/base>\n\n  /etc/verifhost r,\n\n%s\n\n  profile helper {\n    include <abstractions/base>\n\n"
+                "    /etc/helper r,\n\n    include if exists <local/%s_helper>\n  }\n\n  include if exists <local/%s>\n}\n" % (name, line, name, name))
     return "profile %s {\n  include <abstractions/base>\n\n  /etc/verifhost r,\n\n%s\n\n  include if exists <local/%s>\n}\n" % (name, line, name)
 
 
@@ -249,8 +253,8 @@ def check_stack(argstr, host, out, aad, line):
     # trailing block of the host = the run of 'include if exists' lines + '}' at the end
     tail = []
     for l in reversed(post):
-        if l.strip() == "}" or l.strip().startswith("include if exists"):
-            tail.insert(0, l)
+        if (l.strip() == "}" and not tail) or (tail and l.strip().startswith("include if exists")):
+            tail.insert(0, l)       # the closing brace of the host and the local includes right above it (not a sub-profile's)
         else:
             break
     mid = post[:len(post) - len(tail)]
@@ -392,12 +396,14 @@ def run(ctx):
         for i in range(n_gen["stack"] // len(bench)):
             k = rng.randint(1, 4)
             a = " ".join((["X"] if rng.random() < 0.5 else []) + rng.sample(profs, k))
-            cases.append(("gen", "  #aa:stack " + a, "stack", a))
+            cases.append(("gen-subhost" if rng.random() < 0.3 else "gen", "  #aa:stack " + a, "stack", a))
+        # a tenth of the generated lines end in blanks an editor left behind (the arguments are the same)
+        cases = [(src, (line + rng.choice(["  ", " ", "\t"])) if src.startswith("gen") and rng.random() < 0.1 else line, kind, argstr) for (src, line, kind, argstr) in cases]
         # stacks run in small fresh batches (alone-ness), the rest in big batches
         reqs = []
         for i, (src, line, kind, argstr) in enumerate(cases):
             reqs.append({"id": i, "do": "directive", "root": b.root, "abi": int(b.cfg.abi), "version": float(b.cfg.ver),
-                         "file": os.path.join(aad, "verifhost"), "text": host_for(line)})
+                         "file": os.path.join(aad, "verifhost"), "text": host_for(line, sub=src.endswith("subhost"))})
         envx = {"DISTRIBUTION": b.cfg.dist}
         chunks = [reqs[k:k + 250] for k in range(0, len(reqs), 250)]
         reps = []
@@ -405,7 +411,8 @@ def run(ctx):
             reps += part
         distinct_dbus = {}
         for (src, line, kind, argstr), rep in zip(cases, reps):
-            host = host_for(line)
+            host = host_for(line, sub=src.endswith("subhost"))
+            src = "gen" if src.startswith("gen") else src
             ctx.case(digest(b.cfg.id, kind, argstr), {"cfg": b.cfg.id, "directive": line.strip()} if src != "gen" and kind != "dbus" else None)
             where = "%s[%s]" % (b.cfg.id, src)
             casej = {"cfg": b.cfg.id, "line": line, "source": src}
